@@ -83,7 +83,8 @@ class _Rewrite(ast.NodeTransformer):
                 raise NotExecutable("unbounded quantifier")
             if nm.startswith("__rng") or nm.startswith("spec_"):
                 raise NotExecutable("uninterpreted spec function")
-            if nm.startswith("disk_") or nm in ("closs", "mout", "filt", "rng_iter", "prime", "l1d", "_same_run_prefix"):
+            if nm.startswith("disk_") or nm in ("closs", "mout", "filt", "rng_iter", "prime", "l1d", "_same_run_prefix",
+                                                "exists_real", "upow"):
                 raise NotExecutable("specification-only vocabulary (ghost disk / abstract callee values)")
         return self.generic_visit(node)
 
